@@ -662,6 +662,9 @@ class Engine:
             ob.verdict = "unknown"
             ob.detail = s.reason_unknown()
             self.try_cvc5(ob, s)
+            if ob.verdict == "sat":
+                ob.ms = int((time.time() - t0) * 1000)
+                return ob
             if ob.verdict == "unknown" and budget > first:
                 s, r = z3_try(budget)
                 ob.backend = "z3-" + z3.get_version_string()
@@ -692,16 +695,22 @@ class Engine:
             f.write(logic + smt)
             path = f.name
         try:
-            out = subprocess.run(["/usr/bin/cvc5", "--strings-exp", f"--tlimit={self.timeout_ms * 2}", path],
-                                 capture_output=True, text=True, timeout=self.timeout_ms / 1000 * 2 + 5)
-            res = out.stdout.strip().splitlines()[-1] if out.stdout.strip() else ""
-            if res == "unsat":
-                ob.verdict = "unsat"
-                ob.backend = "cvc5-1.0.3"
-            elif res == "sat":
-                ob.detail += " | cvc5: sat (no model extraction)"
-            else:
-                ob.detail += f" | cvc5: {res or out.stderr.strip()[:100]}"
+            for extra in ([], ["--finite-model-find"]):
+                out = subprocess.run(["/usr/bin/cvc5", "--strings-exp", f"--tlimit={self.timeout_ms}", *extra, path],
+                                     capture_output=True, text=True, timeout=self.timeout_ms / 1000 + 5)
+                res = out.stdout.strip().splitlines()[-1] if out.stdout.strip() else ""
+                if res == "unsat":
+                    ob.verdict = "unsat"
+                    ob.backend = "cvc5-1.0.3"
+                    break
+                elif res == "sat":
+                    # a counter-model exists (found by cvc5%s); inputs are recovered by the bounded replay search
+                    ob.verdict = "sat"
+                    ob.backend = "cvc5-1.0.3" + ("-fmf" if extra else "")
+                    ob.detail += " | cvc5: sat"
+                    break
+                else:
+                    ob.detail += f" | cvc5{' fmf' if extra else ''}: {res or out.stderr.strip()[:100]}"
         except (subprocess.TimeoutExpired, OSError) as e:
             ob.detail += f" | cvc5: {type(e).__name__}"
         finally:
